@@ -264,6 +264,10 @@ class Monitor:
                 if st2 == 'held':
                     tag = 'conclusion-loses-hypotheses'
             mech = name[6:] + ':' + tag
+            if self.label.startswith('hostile:'):
+                # instances built by a directed template carry its name: the recorded findings are then keyed by the
+                # particular weakness the template aims at, not just by the rule
+                mech += '@' + self.label[8:]
             self._report(mech, name, args, prevs, th, sargs,
                          'accepted but not a consequence (%s)' % st, info)
         elif st == 'disagree':
@@ -353,7 +357,7 @@ def run_rules(ctx, spec):
                 r2 = run_instance(mon, ctx, J)
                 ctx.count('nearmiss_%s' % r2)
                 ctx.count('mut:%s:%s' % (J['kind'].split('+')[0] + ('+' if '+' in J['kind'] else ''), r2))
-        for _ in range(max(2, spec['per'] // 3) if GEN.HOSTILE.get(rule) else 0):
+        for _ in range(max(12, spec['per']) if GEN.HOSTILE.get(rule) else 0):
             J = GEN.make_hostile(g, rule)
             if J is None:
                 continue
